@@ -99,6 +99,23 @@ theorem c20_no_pipe (pipes : List (Option (List K × Bool))) (h : ∀ p, p ∈ p
     rw [h p hp]; simp
   rw [this]
 
+/-- **keyword recognition does not depend on the case of an unquoted keyword token** (`lexer.IsKeyword`): two
+tokens with the same quoting and the same lower-cased text are the same keyword or not -/
+theorem c20_keyword_case_invariant (t t' : Tok) (kw : List Char) (hq : t.quoted = t'.quoted)
+    (hl : asciiLower t.text = asciiLower t'.text) : isKeyword t kw = isKeyword t' kw := isKeyword_case t t' kw hq hl
+
+/-- hence `| FIELDS EXCEPT a, b`, `| Fields Except a, b` and `| fields except a, b` parse to the same pipe ... -/
+theorem c20_pipe_header_case_invariant (f f' e e' : Tok) (rest : List Tok)
+    (hf : f.quoted = f'.quoted ∧ asciiLower f.text = asciiLower f'.text) (hfk : isKeyword f "fields".toList = true)
+    (he : e.quoted = e'.quoted ∧ asciiLower e.text = asciiLower e'.text) (hek : isKeyword e "except".toList = true) :
+    parsePipeFields (f :: e :: rest) = parsePipeFields (f' :: e' :: rest) :=
+  parsePipeFields_case f f' e e' rest hf hfk he hek
+
+/-- ... while a quoted `"except"` is an ordinary field name of an allow-list -/
+theorem c20_quoted_except_is_a_field :
+    parsePipeFields [⟨"fields".toList, false⟩, ⟨"except".toList, true⟩, ⟨[','], false⟩, ⟨"a".toList, false⟩] =
+      some (false, ["except".toList, "a".toList], []) := by decide
+
 /-! ## Obligations on facts re-extracted from /repo on every run -/
 open SV.Extracted.C20
 
@@ -134,7 +151,26 @@ theorem c20_x_parse_shape :
       "for pipe := range q.Pipes", "p, ok := pipe.(*parser.PipeFields)", "if !ok { continue }",
       "return FetchFieldsFilter{ Fields: p.Fields, AllowList: !p.Except, }", "return FetchFieldsFilter{}"] := by decide
 
+/-- the pipe parser recognises `|`, `fields`, `except`, `,` through `lexer.IsKeyword(s)`, which refuses quoted tokens
+and compares with `strings.EqualFold` - what `SV.Fields.isKeyword` / `parsePipeFields` model -/
+theorem c20_x_keywords_case_insensitive :
+    parsePipesConds = ["for !lex.IsEnd()", "if !lex.IsKeyword(\"|\")", "case lex.IsKeyword(\"fields\")", "if err != nil",
+      "if fieldFilters > 1"] ∧
+    parsePipeFieldsConds = ["if !lex.IsKeyword(\"fields\")", "except := false", "if lex.IsKeyword(\"except\")",
+      "except = true", "if err != nil"] ∧
+    parseFieldListConds = ["for !lex.IsKeywords(\"|\", \"\")", "if err != nil", "if lex.IsKeyword(\",\")",
+      "if trailingComma", "if len(fields) == 0"] ∧
+    isKeywordStmts = ["if lex.TokenQuoted { return false }", "return strings.EqualFold(lex.Token, token)"] ∧
+    isKeywordsStmts = ["if lex.TokenQuoted { return false }",
+      "for _, t := range tokens { if strings.EqualFold(lex.Token, t) { return true } }", "return false"] := by decide
+
 /-! ## Non-vacuity -/
+
+example : parsePipeFields [⟨"FIELDS".toList, false⟩, ⟨"Except".toList, false⟩, ⟨"a".toList, false⟩, ⟨[','], false⟩,
+    ⟨"b".toList, false⟩, ⟨['|'], false⟩] = some (true, ["a".toList, "b".toList], [⟨['|'], false⟩]) := by decide
+example : isKeyword ⟨"EXCEPT".toList, false⟩ "except".toList = true ∧ isKeyword ⟨"except".toList, true⟩ "except".toList = false := by
+  decide
+
 
 example : filterAllow ["a", "c", "zz"] [(⟨0, "a", 1⟩ : Fld String Nat), ⟨1, "b", 2⟩, ⟨2, "c", 3⟩, ⟨3, "d", 4⟩] =
     [⟨0, "a", 1⟩, ⟨2, "c", 3⟩] := by decide
